@@ -63,6 +63,23 @@ pub fn run(id: &str, v: &serde_json::Value) -> i32 {
     let listed: Vec<u8> = sa.iter().map(Register::to_num).collect();
     let want: Vec<u8> = (0..32u8).filter(|i| a >> i & 1 == 1).collect();
     chk!(bad, listed == want, "iteration over {a:#x} yields {listed:?}, members are {want:?}");
+    // iterator from an arbitrary cursor (recorded `cur`): make the public iterator reach that cursor by
+    // iterating the set {cur-1} + (s restricted to >= cur) and dropping the first element
+    if let Some(cur) = g("cur") {
+        let cur = (cur as u32).min(32);
+        let hi = if cur >= 32 { 0 } else { a & !((1u32 << cur) - 1) };
+        let probe = if cur >= 1 { hi | (1u32 << (cur - 1)) } else { hi };
+        let listed: Vec<u8> = mk(probe).iter().map(Register::to_num).collect();
+        let want: Vec<u8> = (0..32u8).filter(|i| probe >> i & 1 == 1).collect();
+        chk!(bad, listed == want, "iteration over {probe:#x} (cursor reaches {cur}) yields {listed:?}, members are {want:?}");
+    }
+    // adjacent pairs and the full set exercise every cursor position
+    for lo in 0..31u8 {
+        let v = 3u32 << lo;
+        let listed: Vec<u8> = mk(v).iter().map(Register::to_num).collect();
+        chk!(bad, listed == vec![lo, lo + 1], "iteration over {{x{lo}, x{}}} yields {listed:?}", lo + 1);
+    }
+    chk!(bad, Register::all().iter().count() == 32, "Register::all() iterates over {} registers", Register::all().iter().count());
     // ecall table
     let n = g("n").unwrap_or(1) as i32;
     for k in [n, 10, 93, 1, 8, 17, 30, 31, 54, 64, 1024] {
